@@ -175,6 +175,43 @@ def lock_window(ctx, res):
                    f"the lock is written to `{lockvar}` = "
                    f"`{srcs.get(lockvar)}`, not to the table "
                    f"(__sync_trait__['']) that the partner tests")
+        # the per-name entry of the link table can vanish at any time (the
+        # weak-reference callback deletes it when the last partner dies):
+        # every read `info[<name>]` is dominated by a membership test
+        tables = {v for v, src in srcs.items()
+                  if src.endswith(".__sync_trait__")
+                  or src.endswith("._get_sync_trait_info()")}
+
+        class R(LockFlow):
+            def classify(s, e, node):
+                if isinstance(e, ast.Subscript) \
+                        and isinstance(e.ctx, ast.Load) \
+                        and isinstance(e.value, ast.Name) \
+                        and e.value.id in tables \
+                        and not (isinstance(e.slice, ast.Constant)):
+                    return [("READ", False)]
+                return []
+
+            def step(s, st, ev, e, node):
+                if ev == "READ":
+                    s.reads.append((e, st[1], node.id))
+                return st
+        rf = R(mod, fn, qual)
+        rf.reads = []
+        rf.run((None, frozenset()))
+        if not rf.reads:
+            raise AnalysisError(f"{qual}: link-table read not found")
+        for e, facts_, nid in rf.reads:
+            k, t = norm(e.slice), norm(e.value)
+            ok = ("F", f"{k} not in {t}") in facts_ \
+                or ("T", f"{k} in {t}") in facts_
+            res.oblige(ok, f"{qual}:table-read", mod.loc(e),
+                       f"`{norm(e)}` is read without a dominating "
+                       f"`{k} in {t}` test: the entry is deleted by the "
+                       f"weak-reference callback when the last partner is "
+                       f"garbage-collected while this handler stays "
+                       f"registered, so the next change raises KeyError",
+                       rf.witness_lines(nid, (None, facts_)))
         # the partner's errors are swallowed
         for e, st, nid in fl.props:
             t = _enclosing_try(fn, e)
